@@ -157,6 +157,7 @@ class Ctx:
                     "class": klass,
                     "assertions": self.assertions,
                     "assertions_env": self.spec.get("assertions_env"),
+                    "debug_logging": getattr(self, "debug_logging", False),
                     "seed": self.seed,
                     "tier": self.tier,
                     "case": case,
